@@ -3,7 +3,7 @@
     integrals on the recorded currents + table identities.
 """
 import numpy as np
-from pmv import common, gen, observe
+from pmv import common, gen, observe, corpus
 from pmv.oracles import ffref
 
 ID   = 'C10'
@@ -25,20 +25,29 @@ ASSUMPTIONS = [ 'pulse points, far ends and currents are taken from the solved m
 
 def plan (tier, seed):
     n = 260 if tier == 'quick' else 5000
-    return [dict (i = i, seed = seed) for i in range (n)]
+    return [dict (i = i, seed = seed) for i in range (n)] + corpus.plan_cases (seed, tier, 1, 3)
 # end def plan
 
 def make (c):
     rng = np.random.default_rng ([c ['seed'], 10, c ['i']])
     u = rng.random ()
-    spec = gen.curve_spec (rng) if u < 0.1 else None
-    if spec is None:
-        if u < 0.55:
-            spec = gen.fam_free (rng, equal_junction = bool (rng.random () < 0.5), seg_hi = 1 / 18.01)
-        else:
-            spec = gen.fam_ground (rng, seg_hi = 1 / 18.01)
-    gen.add_sources (rng, spec, nmax = 3)
-    gen.taper_some (np.random.default_rng ([c ['seed'], 101, c ['i']]), spec, 0.15)
+    if 'corpus' in c:
+        # the repository's antennas (real ground replaced by the ideal plane: the reference integrals know images only)
+        spec = corpus.make (c, 10)
+        rng  = corpus.rng_of (c, 10)
+        if spec ['media'] is not None:
+            spec ['media'] = [[0.0, 0.0, 0.0, None]]
+            spec.pop ('boundary', None)
+            spec.pop ('radials', None)
+    else:
+        spec = gen.curve_spec (rng) if u < 0.1 else None
+        if spec is None:
+            if u < 0.55:
+                spec = gen.fam_free (rng, equal_junction = bool (rng.random () < 0.5), seg_hi = 1 / 18.01)
+            else:
+                spec = gen.fam_ground (rng, seg_hi = 1 / 18.01)
+        gen.add_sources (rng, spec, nmax = 3)
+        gen.taper_some (np.random.default_rng ([c ['seed'], 101, c ['i']]), spec, 0.15)
     # drive levels from microvolts to megavolts (input powers from 1e-15 W up): every relation of the
     # statement is a ratio, none depends on the level
     rl = np.random.default_rng ([c ['seed'], 102, c ['i']])
@@ -159,7 +168,8 @@ def check (c):
     azi3 = MM.Angle (ff ['phi'][0] + 360.0, ff ['phi'][1], ff ['phi'][2])
     common.guarded (lambda: m.compute_far_field (zen3, azi3, pwr = P, dist = r), 'compute_far_field')
     g3 = np.array (m.far_field.gain)
-    both = (g1 > -200) & (g3 > -200)
+    # (directions within 100 dB of the strongest: deeper in a null the last bit of the angle's cosine decides)
+    both = (g1 > max (-200, g1.max () - 100)) & (g3 > max (-200, g1.max () - 100))
     judge ('phi+360', (np.abs (g1 - g3) [both].max () if both.any () else 0.0), 1e-6, 'rows 360 degrees apart differ')
     zen4 = MM.Angle (0.0, 1.0, 1)
     azi4 = MM.Angle (0.0, 37.0, 9)
